@@ -57,6 +57,18 @@ fn tanh<T: Dom>(k: usize) {
         match v.last() { Some(o) => T::oblige(&format!("Tanh t={t}: out == tanh(child_t)"), Cond::Ident(o, s[t].unwrap().tanh())), None => T::oblige(&format!("Tanh t={t}: has a value"), Cond::Bool(false)) }
     }
 }
+/// Tanh on concrete child outputs spanning many magnitudes: the reported value must be exactly libm's tanh of it
+/// (complements the symbolic obligation above, where tanh is uninterpreted)
+fn tanh_magnitudes<T: Dom>() {
+    let vals: Vec<f64> = vec![0.0, 1e-300, 1e-30, 3.3000000000000005e-10, 1e-9, 1.3e-8, 1.4e-8, 1.489934220444411e-8, 1.49e-8, 2e-8, 1e-7, 1e-5, 3.4e-4, 1e-3, 0.1, 0.5, 1.0, 5.0, 20.0, 100.0];
+    let mut all: Vec<f64> = vals.clone(); all.extend(vals.iter().map(|v| -v));
+    let s: Vec<Option<T>> = all.iter().map(|v| Some(T::c(*v))).collect();
+    let mut v = Tanh::new(Script::new(s.clone()));
+    for (t, x) in all.iter().enumerate() {
+        v.update(T::zero());
+        match v.last() { Some(o) => T::oblige(&format!("Tanh of the concrete child output {x:e}: out == tanh({x:e}) bit-exactly"), Cond::Ident(o, T::c(x.tanh()))), None => T::oblige(&format!("Tanh step {t}: has a value"), Cond::Bool(false)) }
+    }
+}
 fn echo_const<T: Dom>(k: usize) {
     let c = T::input("c");
     let mut e = Echo::<T>::new();
@@ -76,6 +88,7 @@ pub fn units(tier: Tier, _seed: u64) -> Vec<Unit> {
     u.push(unit!(format!("C14/GTE/k={k}"), clip(k, true)));
     u.push(unit!(format!("C14/LTE/k={k}"), clip(k, false)));
     u.push(unit!(format!("C14/Tanh/k={k}"), tanh(k)));
+    u.push(unit!("C14/Tanh/concrete-magnitudes", tanh_magnitudes()));
     u.push(unit!(format!("C14/Echo,Constant/k={k}"), echo_const(k)));
     u
 }
